@@ -5,6 +5,7 @@ package harness
 // panic-safe wrappers around the library.
 
 import (
+	"encoding/base64"
 	"encoding/binary"
 	"encoding/json"
 	"fmt"
@@ -15,6 +16,7 @@ import (
 	"strconv"
 	"sync"
 	"testing"
+	"unicode/utf8"
 
 	jp "github.com/jmespath/go-jmespath"
 
@@ -29,6 +31,7 @@ type Case struct {
 	Property string                 `json:"property"`
 	Kind     string                 `json:"kind"`
 	Expr     string                 `json:"expr,omitempty"`
+	ExprB64  string                 `json:"expr_b64,omitempty"` // expression bytes when they are not valid UTF-8
 	Doc      string                 `json:"doc,omitempty"` // JSON text
 	Extra    map[string]interface{} `json:"extra,omitempty"`
 	Note     string                 `json:"note,omitempty"`     // filled on failure: what was violated
@@ -38,10 +41,32 @@ type Case struct {
 
 func (c Case) key() string {
 	b, _ := json.Marshal(struct {
-		K, E, D string
-		X       map[string]interface{}
-	}{c.Kind, c.Expr, c.Doc, c.Extra})
+		K, E, B, D string
+		X          map[string]interface{}
+	}{c.Kind, c.Expr, c.ExprB64, c.Doc, c.Extra})
 	return string(b)
+}
+
+// expr returns the expression text (decoding ExprB64 when present).
+func (c Case) expr() string {
+	if c.ExprB64 != "" {
+		b, err := base64.StdEncoding.DecodeString(c.ExprB64)
+		if err != nil {
+			panic("HARNESS-ERROR: bad expr_b64")
+		}
+		return string(b)
+	}
+	return c.Expr
+}
+
+// withExpr stores an arbitrary byte string as the expression of a case.
+func withExpr(c Case, e string) Case {
+	if utf8.ValidString(e) {
+		c.Expr, c.ExprB64 = e, ""
+	} else {
+		c.Expr, c.ExprB64 = "", base64.StdEncoding.EncodeToString([]byte(e))
+	}
+	return c
 }
 
 // Result of evaluating a predicate on a case.
